@@ -93,6 +93,7 @@ type World struct {
 	clients *clientSet
 	adv    *adversary
 	ended  bool
+	memo       map[[32]byte]memoVerdict // verification verdicts shared across replicas (Twins-style plans only)
 	async      bool   // votes are verified in background goroutines, released one at a time by the scheduler
 	driverGID  uint64
 	pmu        sync.Mutex
@@ -243,6 +244,13 @@ func (w *World) process(nd *Node) {
 		return
 	}
 	w.step++
+	if w.kauri() {
+		// Kauri starts a sleeping goroutine per disseminated proposal (go waitToAggregate); two of them started at
+		// the same instant by one replica would wake together and race for the replica's queue. One nanosecond
+		// per step keeps their wake-up instants, and hence their order, distinct.
+		time.Sleep(time.Nanosecond)
+		synctest.Wait()
+	}
 	if w.clients != nil {
 		synctest.Wait() // let client goroutines that just got an outcome record it
 	}
